@@ -179,6 +179,12 @@ typedef struct {
 	/// This is ignored if uncompressed_size == LZMA_VLI_UNKNOWN.
 	bool allow_eopm;
 
+	/// True if uncompressed_size was known, all of it has been decoded,
+	/// and it has been determined that the only valid next symbol is
+	/// EOPM. This has to be remembered in case the input ends in the
+	/// middle of the EOPM and decoding continues in a later call.
+	bool eopm_is_valid;
+
 	////////////////////////////////
 	// State of incomplete symbol //
 	////////////////////////////////
@@ -295,7 +301,8 @@ lzma_decode(void *coder_ptr, lzma_dict *restrict dictptr,
 	// EOPM is always required (not just allowed) when
 	// the uncompressed size isn't known. When uncompressed size
 	// is known, eopm_is_valid may be set to true later.
-	bool eopm_is_valid = coder->uncompressed_size == LZMA_VLI_UNKNOWN;
+	bool eopm_is_valid = coder->uncompressed_size == LZMA_VLI_UNKNOWN
+			|| coder->eopm_is_valid;
 
 	// If uncompressed size is known and there is enough output space
 	// to decode all the data, limit the available buffer space so that
@@ -685,6 +692,7 @@ slow:
 			// Otherwise continue decoding with the expectation
 			// that the next LZMA symbol is EOPM.
 			eopm_is_valid = true;
+			coder->eopm_is_valid = true;
 		}
 
 		rc_if_0_safe(coder->is_match[state][pos_state], SEQ_IS_MATCH) {
@@ -1028,6 +1036,7 @@ lzma_decoder_uncompressed(void *coder_ptr, lzma_vli uncompressed_size,
 	lzma_lzma1_decoder *coder = coder_ptr;
 	coder->uncompressed_size = uncompressed_size;
 	coder->allow_eopm = allow_eopm;
+	coder->eopm_is_valid = false;
 }
 
 
